@@ -77,6 +77,12 @@ def run_impl(k, c, ops, extra=None):
             def f():
                 conn.receive_data(o[1])
                 return describe_msg(conn.next_event())
+        elif o[0] == 3:
+            # the application assigns another security configuration to the existing connection object (implementation only:
+            # the caller compares what follows with a model script that starts from the new configuration)
+            def f():
+                conn.client_system_title, conn.global_encryption_key, conn.global_authentication_key, conn.security_suite = o[1][0], o[1][1], o[1][2], o[1][3]
+                return None
         else:
             f = lambda: conn.get_hls_reply()
         r = guarded(f)
